@@ -115,7 +115,7 @@ PROPS['C04'] = dict(
                'Layer::neighbour_from_parts', 'Layer::neighbour_from_shifted_coos', 'Layer::{ncp,eqr,spc}_neighbour',
                'MainWind::{from_offsets,offset_se,offset_sw,index}', 'MainWindMap'],
     bounds={'quick': 'depths 0,1,2,3: every cell a and every other cell c of the depth (both symbolic, full range); guards at depths 0,1,29',
-            'thorough': 'adds depths 4, 8, 16, 17, 24 (the other depths: tier extended; a depth that exceeds the time cap is reported UNDECIDED, never counted as held)'},
+            'thorough': 'adds depths 4, 8 (depths 16, 17, 24 were undecided after 40 min each: tier extended with the other depths; a harness that exceeds its cap is reported UNDECIDED, never counted as held)'},
     outside='depths not listed for the tier',
     assumptions=['plane oracle: integer vertex coordinates in units of 1/nside with the polar-cap identifications (harness/common/oracles.rs)'],
 )
@@ -820,7 +820,7 @@ PROPS['C19'] = dict(
     inject=[dict(host='src/nested/mod.rs', mod='verif_c19', parts=['props/c19.rs', 'kani/c19.rs'])],
     harnesses=_c19,
     functions=['Layer::bilinear_interpolation', 'Layer::neighbours', 'MainWindMap::get'],
-    bounds={'quick': 'depths 0, 1, 2: every cell x the 17 x 17 lattice of offsets k/16 (incl. 0, 0.5, 1); separately restricted to the cells lacking a cardinal neighbour (also at depth 29)', 'thorough': 'adds every cell at depth 29, depths 3, 8, 17 on the 17 x 17 lattice and depths 0, 1 on the 257 x 257 lattice (other depths: tier extended)'},
+    bounds={'quick': 'depths 0, 1, 2: every cell x the 17 x 17 lattice of offsets k/16 (incl. 0, 0.5, 1); separately restricted to the cells lacking a cardinal neighbour (also at depth 29)', 'thorough': 'adds depth 3 (every cell), the cells lacking a cardinal neighbour at depths 3, 8, 17, and depths 0, 1 on the 257 x 257 lattice (every cell at depths 8, 17, 29 was undecided after 40 min: tier extended with the other depths)'},
     outside='offsets that are not multiples of 1/16 (quick) / 1/256 (thorough) (arbitrary doubles make the 32 weight products of the code a 45 M clause instance); the computation of the cell and '
             'offsets from the position (hash_with_dxdy, decided by C03)',
     assumptions=['cut at Layer::hash_with_dxdy: it returns the cell number and offsets chosen by the harness (every cell in range, offsets in [0, 1] on the 1/256 lattice)',
@@ -837,7 +837,7 @@ _KEEP_T = {
     'C01': r'^c01_e2e_d(4|8|16|17|29)$|^c01_r_npc_',
     'C02': r'.',
     'C03': r'^c03_(centre|vertices)_d(3|8|17|29)$|^c03_offset_d(0|1)$|^c03_path_d(2|29)$|^c03_border_\w+_d(0|1)$|^c03_inv_(npc_b0|eqr_b5|spc_b10)_d0$|^c03_range_\w+_d(0|1|2|8|16|28)$',
-    'C04': r'^c04_pair_d(4|8|16|17|24)$',
+    'C04': r'^c04_pair_d(4|8)$',
     'C06': r'.',
     'C07': r'^(?!c07_(or|xor)_(1_2|2_1)_dm11)',
     'C08': r'^(?!c08_(or_2_1|xor_1_2)_dm11)',
@@ -849,7 +849,7 @@ _KEEP_T = {
     'C16': r'.',
     'C17': r'.',
     'C18': r'.',
-    'C19': r'_d(3|8|17)$|^c19_any_d29$|_d(0|1)_fine$',
+    'C19': r'^c19_corner_d(3|8|17)$|^c19_any_d3$|_d(0|1)_fine$',
 }
 for _pid, _p in PROPS.items():
     _rx = _re.compile(_KEEP_T.get(_pid, '.'))
@@ -858,4 +858,4 @@ for _pid, _p in PROPS.items():
             _h['tiers'] = X
         # a thorough-only harness gets at most 40 min (beyond that it is reported UNDECIDED); longer caps only in tier extended
         if _h['tiers'] == T and _h['timeout'] > 2400:
-            _h['timeout'] = 2400
+            _h['timeout'] = 3600 if '_r_npc_' in _h['name'] else 2400   # lemma R in the north cap: 25 min unloaded, undecided after 40 min under load
